@@ -91,7 +91,8 @@ def gen_case(seed, tier='quick'):
         b = rng.randrange(nwb)
         names = [s['name'] for s in books[b]['sheets']]
         op = {'op': 'load', 'wb': b, 'ignore': subsets(names, rng),
-              'via': rng.choice(['path', 'path', 'file', 'two_step']),
+              'via': rng.choice(['path', 'path', 'file', 'two_step',
+                                 'shared_archive']),
               'bufsize': rng.choice([16, 64, 512, 4096, 8192])}
         if not op['ignore'] and rng.random() < 0.5:
             op['explicit_ignore'] = True
@@ -305,6 +306,7 @@ def _run(case, fs):
     first_dump = {}
     content = {}        # path index -> workbook whose bytes it holds now
     last_mc = [None]
+    keep_ev = {}
 
     for seq, op in enumerate(case['ops']):
         if viol is not None:
@@ -386,6 +388,18 @@ def _run(case, fs):
                     return mc.model
                 out = outcome_of(again)
                 retried = True
+        elif op.get('via') == 'shared_archive':
+            # one archive read once, parsed by two compilers: two models
+            def shared():
+                holder['archive'] = mc.read_excel_file(path)
+                holder['other'] = ModelCompiler()
+                holder['other'].parse_archive(holder['archive'], **kw)
+                holder['other'].model.build_code()
+                mc.parse_archive(holder['archive'], **kw)
+                mc.model.build_code()
+                return mc.model
+            with st:
+                out = outcome_of(shared)
         elif op.get('via') == 'file':
             fobj = open(path, 'rb')
             with st:
@@ -450,6 +464,50 @@ def _run(case, fs):
             viol = v
             break
         bump('probe:load_judged_equal')
+        if 'other' in holder and not fired:
+            # the sibling model parsed from the same archive object must be
+            # independent: change and evaluate it, this one must not move
+            other = holder['other'].model
+            mine_before = dump_model(model)
+            consts = [a for a, c in sorted(other.cells.items())
+                      if c.formula is None][:3]
+            for a in consts:
+                outcome_of(other.set_cell_value, a, 987654)
+            evo = Evaluator(other)
+            for a in sorted(other.cells):
+                outcome_of(evo.evaluate, a)
+            bump('probe:two_models_from_one_archive')
+            if dump_model(model) != mine_before:
+                viol = {'tag': 'models-from-one-archive-share-state',
+                        'detail': {'op': seq, 'wb': b, 'diff': diff_dumps(
+                            mine_before, dump_model(model))}}
+                break
+        if op.get('reuse_compiler') and id(mc) in keep_ev and not fired:
+            # an evaluator created on this compiler's model before the
+            # compiler was used for another workbook
+            old_ev = keep_ev[id(mc)][1]
+            fresh = Evaluator(model)
+            for n in sorted(getattr(model, 'defined_names', {})):
+                t = name_target(model.defined_names[n])
+                if t[0] != 'cell':
+                    continue
+                o1 = outcome_of(old_ev.evaluate, n)
+                o2 = outcome_of(fresh.evaluate, t[1])
+                bump('probe:name_through_long_lived_evaluator')
+                if o1 != o2:
+                    viol = {'tag': 'long-lived-evaluator-sees-old-workbook',
+                            'detail': {'op': seq, 'wb': b, 'name': n,
+                                       'via_old_evaluator': o1,
+                                       'fresh_by_address': o2}}
+                    break
+            if viol is not None:
+                break
+        kev = Evaluator(mc.model)
+        for n in sorted(getattr(mc.model, 'defined_names', {})):
+            outcome_of(kev.evaluate, n)      # it has used these names
+        for n in ('rate', 'total_x', 'nm_a', 'Input1'):
+            outcome_of(kev.evaluate, n)      # ... and asked for absent ones
+        keep_ev[id(mc)] = (mc, kev)
         if hard:
             bump('probe:load_survived_injected_fault')
         # 6. loads are independent of what was loaded before
